@@ -38,7 +38,7 @@ func allSpecs() map[string]*PropSpec {
 		Technique:   "effect summaries of index add/remove with parameter binding (inverse-operation table), snapshot coverage, must-clear of memoised caches per critical section, role-based fixpoint checks of the include-tree refresh",
 		Explanation: "T1: the workspace index's add and remove methods touch the same aggregates field by field and every add operation has an inverse on the remove side (+= / decrement, keyed append / keyed filter, per-file slot set / delete); an aggregate stored by overwrite and removed by key is reported as non-invertible. T2: the snapshot exports every aggregate. C12-CLEAR: every critical section of the workspace that mutates the resolved tree clears all memoised derived caches unconditionally. C12-UPDATE: a call of Workspace.UpdateFile in the notification handlers is not control dependent on the text (no nothing-relevant-changed short cut). C12-REFRESH: the include-tree refresh is a fixpoint that recomputes reachability in every iteration and is invoked whenever the include list changed (element-wise comparison). M-ORDER: no map-iteration order reaches the index.",
 		NotDecided:  "equality of the incremental and the rebuilt view as values over update sequences (needs execution); file-system effects (files unreadable during refresh).",
-		Rules:       []func(*Ctx){ruleT1T2, ruleC12Clear, ruleC12Refresh, ruleC12Pair, ruleC12Update, ruleMapOrder},
+		Rules:       []func(*Ctx){ruleT1T2, ruleC12Clear, ruleC12Refresh, ruleC12Pair, ruleC12Update, ruleWorkspaceApplies, ruleMapOrder},
 	})
 	add(&PropSpec{
 		ID:          "C10",
@@ -59,7 +59,7 @@ func allSpecs() map[string]*PropSpec {
 		Technique:   "must/may lockset data-flow over SSA with VTA call graph, dominance of version guards over publication, synchronous version numbering at go statements, publication-attempt dominance of every return of the background analysis",
 		Explanation: "C-PUBLISH: every PublishDiagnostics call reachable from a goroutine the server starts is (directly, or through every caller of the function value it sits in) inside a critical section and on the 'equal' side of a comparison between per-document state keyed by the document and the version the analysis was started for; every go statement that starts such an analysis passes a version obtained by a call made synchronously in the notification handler to a function that increments that state under the same lock. C-ROOTS: census of go statements, serial dispatch (no AsyncHandler). Decided for all interleavings at once. C13-SKIP: every return of the background analysis is dominated by a publication attempt, or depends only on the request itself (no client, no path), never on state left by earlier analyses. C13-BUMP: a version bump whose result is used (it supersedes the analysis in flight) is followed on every path by the start of the analysis that receives the new version.",
 		NotDecided:  "that the diagnostics of the latest version equal 'the diagnostics of the latest text' as values (relies on analysis being a function of the text, C15); fairness of the Go scheduler.",
-		Rules:       []func(*Ctx){ruleConcRoots, rulePublish, ruleBump},
+		Rules:       []func(*Ctx){ruleConcRoots, rulePublish, ruleBump, ruleVersionMonotone},
 	})
 	add(&PropSpec{
 		ID:          "C14",
@@ -67,22 +67,22 @@ func allSpecs() map[string]*PropSpec {
 		Explanation: "C-ORDER: may-lockset dataflow over SSA (interprocedural, through closures via the VTA call graph): no mutex is acquired while it may already be held (incl. nested read locks), and the held->acquired graph is acyclic. C-BLOCK: client methods whose implementation awaits a response are never reachable from a handler without a go statement and never called with a lock held; notifications are sent with at most the publication lock held. C-LOCKSET: every field of the long-lived shared structs that is written outside the initialisation phase and accessed from a server-started goroutine has a common lock over all its accesses (must-lockset). C-LEAK: getters that hand out a guarded map/pointer field are listed; in-place mutation of a handed-out object and writes through a handed-out reference are reported. C-RMW: a value stored into lock-protected shared state (field, map element, sync.Map entry) never derives - through callees' results or callers' arguments - from a read of the same field made in a different critical section when some writer of the field runs on a server-started goroutine (no lost update). C14-ORDER: no function that writes the workspace's resolved include tree is reachable from a goroutine the server starts (the workspace follows the notifications synchronously and in order). C-ROOTS.",
 		NotDecided:  "races inside third-party libraries; aliasing beyond the field-based abstraction; that each response equals the state at handling time as a value.",
 		Assumptions: []string{"Initialize is handled before any other message (LSP lifecycle)", "handlers are dispatched serially by jsonrpc2 (re-checked by C-ROOTS)"},
-		Rules:       []func(*Ctx){ruleConcRoots, ruleLockOrder, ruleBlock, ruleLockset, ruleLeak, ruleRMW, ruleSyncUpdate},
+		Rules:       []func(*Ctx){ruleConcRoots, ruleLockOrder, ruleBlock, ruleLockset, ruleLeak, ruleRMW, ruleSyncUpdate, ruleUnlock},
 	})
 	add(&PropSpec{
 		ID:          "C19",
 		Technique:   "settings model extracted from the parser (key, converter, guarded store per leaf incl. helper functions), normaliser guard table, panic-instruction scan of everything reachable from the parser, lockset and read-modify-write analysis, overlay check of update functions",
 		Explanation: "T6: every leaf of the settings struct (enumerated from the type definitions) is assigned by the settings parser in a nested-key and a dotted-key form with the same spelling, each assignment guarded by its converter's ok result and fed from the converted value (ill-typed or unknown entries leave the previous value unchanged); no key feeds two leaves; every numeric leaf has a non-positive guard in the normaliser; every leaf is read by some feature outside the parser. C19-CONVERT: converters accept by type only (no range filter that would bypass the normaliser's default fallback, boolean spellings true/false only). C19-TOTAL: no module function reachable from the settings parser contains an unchecked assertion, index, slice, non-constant division or panic, and its recursion is on a member of its argument. C-LOCKSET on the settings struct; C-RMW: a configuration refresh reads the current settings, overlays the payload and stores the result inside one critical section, so that of two concurrent refreshes neither loses the other's recognised values. C19-OVERLAY: outside the initialisation phase every store into the settings derives from the current settings, and every function applied to the current settings at the call sites of the update routine returns a value computed from its argument (a wholesale replacement is only accepted from the constructor and Initialize). C19-PULL: every path through the configuration-change handler starts a pull of the client's configuration (no throttle or early return can drop a change).",
 		NotDecided:  "feature switches after initialisation (capabilities are computed once in Initialize); that a recognised value changes behaviour in the intended way (value semantics of each feature).",
-		Rules:       []func(*Ctx){ruleSettings, ruleLockset, ruleRMW, ruleOverlay, rulePull},
+		Rules:       []func(*Ctx){ruleSettings, ruleLockset, ruleRMW, ruleOverlay, rulePull, ruleLoaderCache},
 	})
-	wsFresh := []func(*Ctx){ruleT1T2, ruleC12Clear, ruleC12Refresh, ruleC12Pair, ruleC12Update}
+	wsFresh := []func(*Ctx){ruleT1T2, ruleC12Clear, ruleC12Refresh, ruleC12Pair, ruleC12Update, ruleWorkspaceApplies}
 	add(&PropSpec{
 		ID:          "C18",
 		Technique:   "guard-shape agreement of analysis entry points incl. helpers, writer/reader table of diagnostic codes vs. settings filter (decision table from switch or if-chain), control dependence of emission on declared and seen sets, SSA slicing of declaration sources",
 		Explanation: "T3: both analysis entry points run the undeclared-account/commodity checks under the same guard (len(declared set) > 0) for every transaction. T4: each warning code is gated by exactly its own settings field, the filter is applied to every analyzer diagnostic, its default is 'publish'. T9: the undeclared-commodity check visits every amount-bearing access path of a posting (amount, cost, assertion; derived from the ast type definitions). C18-ONCE: one warning per symbol and transaction (declared set and per-transaction seen set both guard the emission). C18-SOURCES: on the diagnostics path the declarations handed to the analyzer depend on the workspace's declared sets AND on the include tree loaded from the analysed content, and the workspace lookups are not conditioned on any setting. Workspace freshness rules (C12-CLEAR/REFRESH/PAIR, T1/T2) because declared sets are served from the workspace caches; C-LEAK because those sets are handed out by reference (a write into them by the analysis makes later warnings depend on which documents were analysed before); C18-SOURCES also requires the read of the document's own include tree not to be control dependent on the existence of a workspace.",
 		NotDecided:  "the declared-predicate itself (prefix / standard top-level category matching in isAccountDeclared).",
-		Rules:       append([]func(*Ctx){ruleT3, ruleT4, ruleT9("T9", [2]string{"internal/analyzer", "checkUndeclaredCommodities"}), ruleSeenOnce, ruleC18Sources, ruleLeak}, wsFresh...),
+		Rules:       append([]func(*Ctx){ruleT3, ruleOwnGuard, ruleT4, ruleT9("T9", [2]string{"internal/analyzer", "checkUndeclaredCommodities"}), ruleSeenOnce, ruleC18Sources, ruleLeak}, wsFresh...),
 	})
 	add(&PropSpec{
 		ID:          "C20",
@@ -96,7 +96,7 @@ func allSpecs() map[string]*PropSpec {
 		Technique:   "SSA slicing of Location constructions (URI vs journal key pairing), return-site analysis of the tree/primary-path function with control dependence, component coverage of the dedup equality, map-iteration-order effect analysis",
 		Explanation: "H-PRIMARY: the function that returns a resolved tree together with the path of its primary journal pairs the workspace tree with the workspace root journal path and the per-document tree with the document path; definition/references/rename pass tree and path from one such lookup; the primary journal is keyed by that path. T9: commodity references visit amount, cost and assertion commodities. T11: the three reference collectors share one skeleton (sorted paths, URI of each location derived from the path of the journal being walked, common sort+dedup), the dedup equality covers URI and all coordinates, rename edits are a 1:1 map of the references including declarations. C12-PAIR and workspace freshness: the tree that is searched is maintained consistently. M-ORDER. C09-TREE: the journal map that is searched contains the files of the given tree on every return (no short cut that looks at the requesting document only); the workspace tree also serves the workspace root itself.",
 		NotDecided:  "that the range inside each location is the right one (C08); parse equality after applying the edits; unsaved edits of files that are not open.",
-		Rules:       append([]func(*Ctx){ruleC09, ruleT9("T9", [2]string{"internal/server", "findCommodityReferences"}), ruleMapOrder}, wsFresh...),
+		Rules:       append([]func(*Ctx){ruleC09, ruleT9("T9", [2]string{"internal/server", "findCommodityReferences"}), ruleMapOrder, ruleLoaderCycle}, wsFresh...),
 	})
 	add(&PropSpec{
 		ID:          "C16",
@@ -110,23 +110,23 @@ func allSpecs() map[string]*PropSpec {
 		Technique:   "unit (dimension) analysis over SSA: UTF-16 units, bytes, runes, 0/1-based lines and columns; mixing, stores into protocol positions, index/slice operands and clamps",
 		Explanation: "units: every integer in the module gets a unit (byte offset / rune count / UTF-16 code unit / line) from a table of sources (len, strings.Index*, utf8.*, lsputil conversions, lexer and AST position fields, protocol.Position fields, semantic-token fields) and the unit is propagated through arithmetic, conversions, phis, calls and struct fields. Reported: arithmetic or comparison between different units (U-MIX), a value stored into a field of another unit, e.g. a rune or byte count into protocol.Position.Character (U-STORE), a wrong-unit argument to a conversion helper (U-ARG), a string indexed by a non-byte quantity (U-INDEX). The column unit of the lexer/AST is read from the lexer's own advance code on every run. C08-LOADERR: a diagnostic that takes its range from an include.LoadError is built only when the error's kind is not the parse-error kind (whose range is a position inside the included file, not in the open document).",
 		NotDecided:  "that a unit-correct range is the right range (payee column estimated from the date width, fold end taken from the next token); containment in the document as a value-level fact.",
-		Rules:       []func(*Ctx){ruleUnits("module", nil), ruleUnitClamp, ruleLoadErrRange},
+		Rules:       []func(*Ctx){ruleUnits("module", nil), ruleUnitClamp, ruleLoadErrRange, ruleLexerCursor},
 	})
 	add(&PropSpec{
 		ID:          "C17",
 		Technique:   "table check of the token legend against constants and stores (SSA constant sets), SSA slicing of full/range/delta handlers (exact document text, encoder output identity, edit constructions, result-id guard), token start and width from the lexer interpretation",
 		Explanation: "T5: every TokenType constant indexes a legend entry of its own kind and every value stored into semanticToken.tokenType is a constant below the legend length. T12: full, range and delta handlers encode the tokenizer's output for the text read from the document store in the same request; the array cached under a result id is exactly the array sent with that id; range requests never touch the cache and are the full token list restricted by the line filter; a delta is computed from (cached data, newly encoded data) and only when the cached id equals previousResultId. L-POS: every lexer token takes its start position before its scanner consumes input (zero-width constructor only for EOF). T15w: token kinds whose value drops delimiters (derived from the lexer) get their width adjusted in the semantic tokenizer. units: token line/col/length are UTF-16 quantities. The tokenizer is handed the document text itself (not a fragment); edits are found as SemanticTokensEdit constructions wherever they are built; a whole-array replacement deletes exactly len(cached data).",
 		NotDecided:  "ordering and non-overlap of the emitted sequence (run-time sortedness), unsigned wrap-around in the encoder and in edit computations, equality of the client-side rebuilt array with the full response over request histories beyond T12.",
-		Rules:       []func(*Ctx){ruleSemantic, ruleLexPos, ruleUnits("module", nil)},
+		Rules:       []func(*Ctx){ruleSemantic, ruleEncoderFresh, ruleLexPos, ruleLexerCursor, ruleUnits("module", nil)},
 	})
 	add(&PropSpec{
 		ID:          "C01",
 		Technique:   "SSA data-flow and field-sensitive slicing of the change handler (thread of the document text through the loop over content changes), unit analysis of offsets (UTF-16 vs byte), census of stores into the document store",
 		Explanation: "C01-THREAD: in the change handler the stored text is a loop-carried value whose only sources are the stored text, a range-less change's text and the ranged applier applied to the running text, visited in list order. C01-STORE: that value is stored after the loop under the notification's URI; didOpen stores the opened text unconditionally; didClose deletes it. C01-OPTIONAL: whole-document replacement is selected by a nil test of an optional *Range, and the server binary routes textDocument/didChange to that handler through an interceptor installed on the connection. C01-CONV: the UTF-16 column is converted against the text of its own line (clamp to line end), lines past the end map to the end of the text. C01-CLAMP: both splice bounds depend on both converted positions (ordering swap) and on len(content). units: UTF-16 / byte / rune quantities are never mixed. C01-SOURCE: every parse on a handler path reads the text from the document store in the same request. C-CACHE: per-document caches filled by handlers are dropped by the change handler. C-FRESH: state written by background goroutines and read by handlers is reported.",
 		NotDecided:  "equality of the stored text with a reference client's buffer over all histories (needs execution); invalid UTF-8 (cannot arrive through JSON).",
-		Rules:       []func(*Ctx){ruleC01, ruleUnits("module", nil)},
+		Rules:       []func(*Ctx){ruleC01, ruleLineStarts, ruleUnits("module", nil)},
 	})
-	fmtRules := []func(*Ctx){ruleFormatterEdits, ruleT14, ruleT15, ruleDecimalLossyGuard, ruleUnits("module", nil), ruleRepeat}
+	fmtRules := []func(*Ctx){ruleFormatterEdits, ruleT14, ruleT15, ruleDecimalLossyGuard, ruleUnits("module", nil), ruleRepeat, ruleErrorsRecorded, ruleGroupingSign}
 	add(&PropSpec{
 		ID:          "C04",
 		Technique:   "SSA value-flow of every TextEdit construction (ranges, text), control dependence of edits on the posting-line and error-line sets, field coverage tables between parser and formatter, unit analysis of columns",
@@ -146,21 +146,21 @@ func allSpecs() map[string]*PropSpec {
 		Technique:   "abstract interpretation of the lexer (line accounting, line-start flag, token start) and of the parser (recovery routine identified by its abstract effect; resynchronisation only after consumed input)",
 		Explanation: "L-NEWLINE (abstract interpretation of the lexer over byte classes, all calling contexts from Lexer.Next): at every position-advancing site outside the newline scanner the current byte cannot be '\\n', and the line counter / line-start flag are written only by the newline scanner (so no token spans a line break and the token sequence of a line depends only on that line's bytes). L-PROGRESS as in C06. L-NEWLINE is decided from the interpretation itself: an advance may consume a line break only where the current byte is known to be exactly '\\n', and at every token return the number of consumed line breaks equals the number of increments of the line counter and the line-start flag was only set together with a consumed line break (no scanner is exempt by name). L-STEP: the position only moves by the width the decoder reported for the current rune (or by one over a known ASCII byte). L-POS: a token's Pos is a position captured before anything but blanks of the scan was consumed. Recovery routines and the dispatcher are identified by their abstract effect, not by name.",
 		NotDecided:  "equality of the two parses outside the damaged entry as values.",
-		Rules:       []func(*Ctx){ruleLexer, ruleParser},
+		Rules:       []func(*Ctx){ruleLexer, ruleParser, ruleErrorsRecorded, ruleT4, ruleLexerCursor},
 	})
 	add(&PropSpec{
 		ID:          "C06",
 		Technique:   "abstract interpretation of lexer (byte classes, step width, progress) and parser (token kinds, progress), loop and recursion census with termination arguments by role, panic-instruction scan over SSA reachable from handlers, bounds and repeat-count clamps by slicing",
 		Explanation: "L-PROGRESS (byte-class abstract interpretation of the lexer, all calling contexts): every non-EOF token return happens after the position strictly increased since Next was entered, and EOF is returned only at the end of input - hence tokens never overlap, stay inside the input and tokenisation terminates with EOF for every byte string. P-PROGRESS (token-kind abstract interpretation of the parser): every path back to the head of a token loop consumes a token. LOOP-CENSUS: every other for-loop modifies a variable of its condition on every path (worklist/fixpoint loops admitted by name with their argument). REC-CENSUS: the only recursion is the guarded include recursion and the structural settings recursion. D-EXPONENT: a parsed quantity passes an Exponent() bound before it enters the tree. C06-REPEAT: Repeat counts are non-negative and configuration integers that reach them are clamped. C06-PANIC: no explicit panic, unchecked assertion or non-constant integer division on a request path. C06-BOUNDS: byte offsets converted from client columns are clamped before slicing. U-XSTR: a byte position obtained by ranging over one string is never used to index or slice a different string. N-NIL: every dereference of an optional part of a posting (pointer-typed field of ast.Posting) is reached only behind a nil test of that field. units (no byte/rune/UTF-16 mix feeding an index). L-STEP: the lexer position only moves by the decoded width of the current rune, so it cannot leave the input (slice bounds) or skip bytes.",
 		NotDecided:  "slice/index bounds in general (no sound bound analysis in reach), time proportional to size beyond loop progress (e.g. repeated lookahead), unsigned wrap-around in the token encoder.",
-		Rules:       []func(*Ctx){ruleLexer, ruleParser, ruleLoopCensus, ruleRecCensus, ruleDecimalExponent, ruleRepeat, rulePanic, ruleBounds, ruleOptionalDeref, ruleCrossIndex, ruleUnits("module", nil)},
+		Rules:       []func(*Ctx){ruleLexer, ruleParser, ruleLoopCensus, ruleRecCensus, ruleDecimalExponent, ruleRepeat, rulePanic, ruleBounds, ruleOptionalDeref, ruleCrossIndex, ruleUnlock, ruleUnits("module", nil)},
 	})
 	add(&PropSpec{
 		ID:          "C03",
 		Technique:   "table agreement between lexer keyword set and parser switch (AST+types), abstract interpretation of the lexer over byte classes and of the parser over token kinds (progress, resynchronisation)",
 		Explanation: "Only the narrow structural part of this property is decided. T7: every directive keyword the parser has a case for is in the lexer's keyword set, and every directive the property names (account, commodity, include, P, Y, D) has a parser case. T8: every token kind the lexer can emit is tested for by some parser branch. D-EXACT at the point quantities are built (decimal.NewFromString only). L-PROGRESS/P-PROGRESS/L-NEWLINE: tokens cover the input left to right, never span a line break and every loop of lexer and parser consumes input (no supported journal can hang or shift line numbers). S-WINDOW: no window x[lo:hi] of a slice kept in a struct field is handed on without a capacity limit (an append to it would overwrite the following window: postings of one transaction replaced by those of the next).",
 		NotDecided:  "MOST OF THE PROPERTY: that the context-free, first-character lexer heuristics classify every spelling of every supported construct correctly (upper-case or digit-leading descriptions, colons in descriptions, CRLF line ends, spaces before the first colon of a virtual account), number-notation normalisation, and the equality of the extracted structure with the written one. These are value semantics of heuristics; no structural fact in reach separates a right heuristic from a wrong one (two known counter-examples on today's tree - CRLF input and an all-caps description yield syntax errors - are invisible to every rule here).",
-		Rules:       []func(*Ctx){ruleT7T8, ruleDecimalExact("internal/parser"), ruleNumberSign, ruleLexer, ruleParser, ruleSliceWindow},
+		Rules:       []func(*Ctx){ruleT7T8, ruleDecimalExact("internal/parser"), ruleNumberSign, ruleLexer, ruleParser, ruleSliceWindow, ruleErrorsRecorded, ruleParserState},
 	})
 	return m
 }
